@@ -1003,7 +1003,9 @@ impl<T: PackedInt> IntVec<T> {
         }
 
         // 🚀 ADVANCED PRIORITY: Check for sorted sequences first for optimal compression
-        let is_sorted = Self::fast_sorted_check(values);
+        // The sampled check is only a cheap pre-filter: delta coding stores every consecutive
+        // difference, so all of them must be non-negative, not just the sampled ones.
+        let is_sorted = Self::fast_sorted_check(values) && values.windows(2).all(|w| w[0] <= w[1]);
         
         if is_sorted && len >= 4 {
             // 🚀 UNIFORM DELTA DETECTION: Check for identical deltas (like [0,1,2,3,...])
@@ -1017,8 +1019,9 @@ impl<T: PackedInt> IntVec<T> {
                 };
             }
             
-            // Regular delta compression for sorted sequences
-            return Self::analyze_delta_bulk(values);
+            // Regular delta compression for sorted sequences; the delta width must cover every
+            // consecutive difference (a sampled maximum can miss the largest gap)
+            return Self::analyze_delta(values);
         }
 
         // 🚀 Single SIMD pass for min/max - eliminates multiple data traversals
